@@ -1,9 +1,13 @@
 package checks
 
 import (
+	"bytes"
 	"errors"
 	"fmt"
+	"github.com/trustbloc/sidetree-go/pkg/jwsutil"
+	"math"
 	"reflect"
+	"strconv"
 	"strings"
 
 	"github.com/trustbloc/sidetree-go/pkg/api/operation"
@@ -298,6 +302,24 @@ var failClasses = []failClass{
 		}
 		s.Facts.InWindow = false
 	}},
+	{"window-early-from-at-the-far-end", "urd", func(h *histCtx, s *opStep) {
+		// a window that opens at the largest times the field can hold (its default end lies beyond the field): early, like any other
+		// (integers of that size are not doubles: the exact digits are written into the serialized payload in place of a stand-in)
+		from := math.MaxInt64 - int64(fw.Pick(h.r, []uint64{0, 1, h.proto.MaxOperationTimeDelta / 2, h.proto.MaxOperationTimeDelta, h.proto.MaxOperationTimeDelta + 1}))
+		s.Spec.AnchorFrom = 1234567890123
+		s.Spec.RawPayload = func(b []byte) []byte {
+			return bytes.Replace(b, []byte(`"anchorFrom":1234567890123`), []byte(`"anchorFrom":`+strconv.FormatInt(from, 10)), 1)
+		}
+		if h.r.Chance(1, 3) {
+			s.Spec.AnchorUntil = 1234567890124
+			until := strconv.FormatInt(math.MaxInt64-int64(h.r.Intn(3)), 10)
+			inner := s.Spec.RawPayload
+			s.Spec.RawPayload = func(b []byte) []byte {
+				return bytes.Replace(inner(b), []byte(`"anchorUntil":1234567890124`), []byte(`"anchorUntil":`+until), 1)
+			}
+		}
+		s.Facts.InWindow = false
+	}},
 	{"window-late", "urd", func(h *histCtx, s *opStep) {
 		s.Spec.AnchorUntil = int64(s.Anchor.Time) - int64(h.r.Range(1, 500))
 		if h.r.Bool() {
@@ -498,6 +520,21 @@ var failClasses = []failClass{
 		s.Facts.ParseOK = false
 		s.Facts.SuffixMatch = false
 	}},
+	{"signed-suffix-qualified", "d", func(h *histCtx, s *opStep) {
+		// the signed suffix ends with the operation's suffix but is not equal to it: a whole DID, a namespace-less tail, another DID's prefix
+		sfx := s.Spec.Suffix
+		other := oracle.MustModelHash(h.code, map[string]interface{}{"other": h.r.Intn(1000)})
+		s.Spec.SignedSuffix = gen.S(fw.Pick(h.r, []string{"did:ion:" + sfx, "did:sidetree:" + sfx, ":" + sfx, other + ":" + sfx}))
+		s.Facts.ParseOK = false
+		s.Facts.SuffixMatch = false
+	}},
+	{"signed-suffix-decorated", "d", func(h *histCtx, s *opStep) {
+		sfx := s.Spec.Suffix
+		other := oracle.MustModelHash(h.code, map[string]interface{}{"other": h.r.Intn(1000)})
+		s.Spec.SignedSuffix = gen.S(fw.Pick(h.r, []string{sfx + ":", sfx + ":" + other, " " + sfx, sfx + " ", sfx + "=", strings.ToLower(sfx), "#" + sfx, sfx + "?x", sfx + "#", "/" + sfx}))
+		s.Facts.ParseOK = false
+		s.Facts.SuffixMatch = false
+	}},
 	{"key-coordinate-leading-zero-stripped", "urd", func(h *histCtx, s *opStep) {
 		// the signing key's JWK carries a coordinate one byte short (its leading zero byte removed): same integer, malformed key
 		if h.keyType == gen.Ed25519 {
@@ -519,6 +556,29 @@ var failClasses = []failClass{
 			j["y"] = oracle.B64(y[1:])
 		}
 		// a self-consistent operation by that key (the applier does not know the previous commitment): only the key encoding is wrong
+		s.Spec.Signer = k
+		s.Spec.PayloadKey = j
+		s.Facts.SigOK = false
+	}},
+	{"key-coordinate-boundary-shifted-after-genuine-use", "urd", func(h *histCtx, s *opStep) {
+		// the key pair has just verified a signature somewhere else in the process (well-formed JWK); this operation commits to, reveals
+		// and is signed under the same coordinates with the boundary between x and y moved: a malformed key, whatever was seen before
+		if h.keyType == gen.Ed25519 {
+			s.Spec.Reveal = gen.S(gen.NewKey(h.r, h.keyType).Reveal(h.code))
+			s.Facts.ParseOK = false
+			return
+		}
+		k := gen.NewKey(h.r, h.keyType)
+		msg := h.r.Bytes(20)
+		jwsutil.VerifySignature(toLibJWK(k.JWK()), k.Sign(h.r, msg), msg)
+		j := k.JWK()
+		xs, ys := fmt.Sprint(j["x"]), fmt.Sprint(j["y"])
+		n := fw.Pick(h.r, []int{4, 8, 1, 2})
+		if h.r.Bool() {
+			j["x"], j["y"] = xs+ys[:n], ys[n:]
+		} else {
+			j["x"], j["y"] = xs[:len(xs)-n], xs[len(xs)-n:]+ys
+		}
 		s.Spec.Signer = k
 		s.Spec.PayloadKey = j
 		s.Facts.SigOK = false
@@ -978,6 +1038,37 @@ func runHistoryProto(c *fw.Case, plan []planEntry, keyType string, code uint64, 
 					w["diff"] = d
 					c.Failf("repeated-application-state-differs", w, "step %d (%s %s): the identical second application yields another state: %s", i, s.AnchoredType, s.Class, d)
 					return
+				}
+			}
+		}
+		// the same operation, had it been anchored at another time: the window is judged against THAT time by the same applier (what it
+		// remembers of the first look - verified signatures, parsed signed data - does not carry the first verdict over)
+		if mode != "C12" && pe.typ != 'c' && (s.Class == "valid" || strings.HasPrefix(s.Class, "window")) && s.Spec.RawPayload == nil && s.Spec.PayloadEdit == nil && r.Chance(1, 3) {
+			from, until, delta := s.Spec.AnchorFrom, s.Spec.AnchorUntil, h.proto.MaxOperationTimeDelta
+			eu := oracle.EffectiveUntil(from, until, delta)
+			cands := []int64{from - 1, from, eu, eu + 1, int64(s.Anchor.Time) + 1000000, 1, int64(s.Anchor.Time) - 1}
+			t2 := fw.Pick(r, cands)
+			if t2 >= 0 && uint64(t2) != s.Anchor.Time {
+				s2 := *s
+				s2.Anchor.Time = uint64(t2)
+				f2 := s.Facts
+				f2.InWindow = oracle.Window(from, until, uint64(t2), delta)
+				want2, accepted2, outcome2 := oracle.Step(model, f2, s2.Anchor)
+				got2, err2 := st.Applier.Apply(anchoredOf(&s2, suffix), actual)
+				c.Count("re-anchored-applications", 1)
+				c.Evals(1)
+				w2 := map[string]interface{}{"history": trace, "key_type": keyType, "code": code, "step": i, "class": s.Class, "first_anchoring_time": s.Anchor.Time, "first_outcome": outcome,
+					"second_anchoring_time": t2, "anchorFrom": from, "anchorUntil": until, "MaxOperationTimeDelta": delta, "expected_outcome": outcome2, "err": fmt.Sprint(err2)}
+				if accepted2 != (err2 == nil) {
+					c.Failf("re-anchored-application-differs:"+outcome2, w2, "step %d (%s %s): applied again as anchored at %d (window [%d, %d]), expected %s, applier returned err=%v", i, s.AnchoredType, s.Class, t2, from, eu, outcome2, err2)
+					return
+				}
+				if err2 == nil {
+					if d := compareState(got2, want2, pubs, unpubs); d != "" {
+						w2["diff"] = d
+						c.Failf("re-anchored-application-state-differs", w2, "step %d (%s %s): applied again as anchored at %d, expected %s: %s", i, s.AnchoredType, s.Class, t2, outcome2, d)
+						return
+					}
 				}
 			}
 		}
